@@ -17,7 +17,7 @@ import lib
 from lib import gz, glist, gbool, gopt
 
 THEOREMS = ['C13_start_discipline', 'C13_one_start', 'C13_no_start_means_raise',
-            'C13_one_start_lazy_join_refuted', 'C13_clen', 'C13_read_bound', 'C13_asks_bound',
+            'C13_clen', 'C13_read_bound', 'C13_asks_bound',
             'C13_too_long_declared', 'C13_user_means_fits', 'C13_too_long_undeclared',
             'C13_too_long_unread_refuted', 'C13_close_discipline', 'C13_closed_once']
 
